@@ -29,12 +29,12 @@ var callbackEntry = &ExtEntry{Name: "callback", Note: "user-supplied callback: a
 // extTable: exact names (ssa Function.String() or types.Func.FullName() of an interface method).
 var extTable = map[string]*ExtEntry{
 	// encoding/binary
-	"(encoding/binary.littleEndian).PutUint16": {Writes: []int{1}},
-	"(encoding/binary.littleEndian).PutUint32": {Writes: []int{1}},
-	"(encoding/binary.littleEndian).PutUint64": {Writes: []int{1}},
-	"(encoding/binary.bigEndian).PutUint16":    {Writes: []int{1}},
-	"(encoding/binary.bigEndian).PutUint32":    {Writes: []int{1}},
-	"(encoding/binary.bigEndian).PutUint64":    {Writes: []int{1}},
+	"(encoding/binary.littleEndian).PutUint16":    {Writes: []int{1}},
+	"(encoding/binary.littleEndian).PutUint32":    {Writes: []int{1}},
+	"(encoding/binary.littleEndian).PutUint64":    {Writes: []int{1}},
+	"(encoding/binary.bigEndian).PutUint16":       {Writes: []int{1}},
+	"(encoding/binary.bigEndian).PutUint32":       {Writes: []int{1}},
+	"(encoding/binary.bigEndian).PutUint64":       {Writes: []int{1}},
 	"(encoding/binary.littleEndian).AppendUint16": {Appends: []int{1}},
 	"(encoding/binary.littleEndian).AppendUint32": {Appends: []int{1}},
 	"(encoding/binary.littleEndian).AppendUint64": {Appends: []int{1}},
@@ -47,22 +47,22 @@ var extTable = map[string]*ExtEntry{
 	"encoding/binary.Write":                       {WritesDeep: []int{0}},
 	"encoding/binary.Read":                        {WritesDeep: []int{2}},
 	// block ciphers / hashes (interface methods: every implementation obeys the interface contract)
-	"(crypto/cipher.Block).Encrypt":   {Writes: []int{1}},
-	"(crypto/cipher.Block).Decrypt":   {Writes: []int{1}},
-	"(crypto/cipher.Block).BlockSize": {},
+	"(crypto/cipher.Block).Encrypt":         {Writes: []int{1}},
+	"(crypto/cipher.Block).Decrypt":         {Writes: []int{1}},
+	"(crypto/cipher.Block).BlockSize":       {},
 	"(crypto/cipher.BlockMode).CryptBlocks": {Writes: []int{1}},
 	"(crypto/cipher.Stream).XORKeyStream":   {Writes: []int{1}},
-	"(hash.Hash).Write":     {},
-	"(hash.Hash).Sum":       {Appends: []int{1}},
-	"(hash.Hash).Reset":     {},
-	"(hash.Hash).Size":      {},
-	"(hash.Hash).BlockSize": {},
-	"(io.Writer).Write":     {},
-	"(io.Reader).Read":      {Writes: []int{1}},
-	"(io.Closer).Close":     {},
-	"(io.ReadCloser).Close": {},
-	"(io.ReadCloser).Read":  {Writes: []int{1}},
-	"(error).Error":         {},
+	"(hash.Hash).Write":                     {},
+	"(hash.Hash).Sum":                       {Appends: []int{1}},
+	"(hash.Hash).Reset":                     {},
+	"(hash.Hash).Size":                      {},
+	"(hash.Hash).BlockSize":                 {},
+	"(io.Writer).Write":                     {},
+	"(io.Reader).Read":                      {Writes: []int{1}},
+	"(io.Closer).Close":                     {},
+	"(io.ReadCloser).Close":                 {},
+	"(io.ReadCloser).Read":                  {Writes: []int{1}},
+	"(error).Error":                         {},
 	// hex / base64: Encode/Decode write their destination; the *String forms are pure
 	"encoding/hex.Encode":                      {Writes: []int{0}},
 	"encoding/hex.Decode":                      {Writes: []int{0}},
@@ -73,65 +73,65 @@ var extTable = map[string]*ExtEntry{
 	"(*encoding/base64.Encoding).AppendEncode": {Appends: []int{1}},
 	"(*encoding/base64.Encoding).AppendDecode": {Appends: []int{1}},
 	// json: decoding writes the target (deep) with freshly allocated memory; encoding only reads
-	"encoding/json.Unmarshal":            {WritesDeep: []int{1}},
-	"(*encoding/json.Decoder).Decode":    {WritesDeep: []int{1}},
-	"encoding/json.NewDecoder":           {Holds: []int{0}},
-	"encoding/json.NewEncoder":           {Holds: []int{0}},
-	"(*encoding/json.Encoder).Encode":    {},
-	"encoding/json.Marshal":              {},
-	"encoding/json.MarshalIndent":        {},
+	"encoding/json.Unmarshal":         {WritesDeep: []int{1}},
+	"(*encoding/json.Decoder).Decode": {WritesDeep: []int{1}},
+	"encoding/json.NewDecoder":        {Holds: []int{0}},
+	"encoding/json.NewEncoder":        {Holds: []int{0}},
+	"(*encoding/json.Encoder).Encode": {},
+	"encoding/json.Marshal":           {},
+	"encoding/json.MarshalIndent":     {},
 	// bytes / strings helpers whose result aliases the argument
-	"bytes.TrimPrefix": {Alias: []int{0}},
-	"bytes.TrimSuffix": {Alias: []int{0}},
-	"bytes.TrimSpace":  {Alias: []int{0}},
-	"bytes.Trim":       {Alias: []int{0}},
-	"bytes.TrimLeft":   {Alias: []int{0}},
-	"bytes.TrimRight":  {Alias: []int{0}},
-	"bytes.Fields":     {Alias: []int{0}},
-	"bytes.Split":      {Alias: []int{0}},
-	"bytes.NewReader":  {Holds: []int{0}},
-	"bytes.NewBuffer":  {Holds: []int{0}},
-	"(*bytes.Buffer).Bytes":  {Alias: []int{0}},
-	"(*bytes.Buffer).Write":  {WritesDeep: []int{0}},
+	"bytes.TrimPrefix":            {Alias: []int{0}},
+	"bytes.TrimSuffix":            {Alias: []int{0}},
+	"bytes.TrimSpace":             {Alias: []int{0}},
+	"bytes.Trim":                  {Alias: []int{0}},
+	"bytes.TrimLeft":              {Alias: []int{0}},
+	"bytes.TrimRight":             {Alias: []int{0}},
+	"bytes.Fields":                {Alias: []int{0}},
+	"bytes.Split":                 {Alias: []int{0}},
+	"bytes.NewReader":             {Holds: []int{0}},
+	"bytes.NewBuffer":             {Holds: []int{0}},
+	"(*bytes.Buffer).Bytes":       {Alias: []int{0}},
+	"(*bytes.Buffer).Write":       {WritesDeep: []int{0}},
 	"(*bytes.Buffer).WriteString": {WritesDeep: []int{0}},
 	"(*bytes.Buffer).WriteByte":   {WritesDeep: []int{0}},
 	"(*bytes.Buffer).Reset":       {WritesDeep: []int{0}},
 	"(*bytes.Buffer).Read":        {Writes: []int{1}},
 	// sort
-	"sort.Ints":       {Writes: []int{0}},
-	"sort.Strings":    {Writes: []int{0}},
-	"sort.Slice":      {Writes: []int{0}},
+	"sort.Ints":        {Writes: []int{0}},
+	"sort.Strings":     {Writes: []int{0}},
+	"sort.Slice":       {Writes: []int{0}},
 	"sort.SliceStable": {Writes: []int{0}},
-	"sort.Sort":       {WritesDeep: []int{0}},
+	"sort.Sort":        {WritesDeep: []int{0}},
 	// strconv appenders
 	"strconv.AppendInt":   {Appends: []int{0}},
 	"strconv.AppendUint":  {Appends: []int{0}},
 	"strconv.AppendQuote": {Appends: []int{0}},
 	// io helpers
-	"io.ReadFull":    {Writes: []int{1}},
-	"io.ReadAll":     {},
+	"io.ReadFull":       {Writes: []int{1}},
+	"io.ReadAll":        {},
 	"io/ioutil.ReadAll": {},
-	"io.Copy":        {},
+	"io.Copy":           {},
 	// sync: lock operations are not memory effects for this analysis (see the lock rule);
 	// sync.Map is genuinely shared mutable state.
-	"(*sync.Map).Store":           {WritesDeep: []int{0}, Retains: [][2]int{{0, 1}, {0, 2}}},
-	"(*sync.Map).LoadOrStore":     {WritesDeep: []int{0}, Retains: [][2]int{{0, 1}, {0, 2}}, Alias: []int{0}},
-	"(*sync.Map).Delete":          {WritesDeep: []int{0}},
-	"(*sync.Map).LoadAndDelete":   {WritesDeep: []int{0}, Alias: []int{0}},
-	"(*sync.Map).Swap":            {WritesDeep: []int{0}, Retains: [][2]int{{0, 1}, {0, 2}}, Alias: []int{0}},
-	"(*sync.Map).CompareAndSwap":  {WritesDeep: []int{0}, Retains: [][2]int{{0, 3}}},
+	"(*sync.Map).Store":            {WritesDeep: []int{0}, Retains: [][2]int{{0, 1}, {0, 2}}},
+	"(*sync.Map).LoadOrStore":      {WritesDeep: []int{0}, Retains: [][2]int{{0, 1}, {0, 2}}, Alias: []int{0}},
+	"(*sync.Map).Delete":           {WritesDeep: []int{0}},
+	"(*sync.Map).LoadAndDelete":    {WritesDeep: []int{0}, Alias: []int{0}},
+	"(*sync.Map).Swap":             {WritesDeep: []int{0}, Retains: [][2]int{{0, 1}, {0, 2}}, Alias: []int{0}},
+	"(*sync.Map).CompareAndSwap":   {WritesDeep: []int{0}, Retains: [][2]int{{0, 3}}},
 	"(*sync.Map).CompareAndDelete": {WritesDeep: []int{0}},
-	"(*sync.Map).Load":            {Alias: []int{0}},
-	"(*sync.Map).Range":           {},
-	"(*sync.Pool).Put":            {WritesDeep: []int{0}, Retains: [][2]int{{0, 1}}},
-	"(*sync.Pool).Get":            {WritesDeep: []int{0}, Alias: []int{0}},
-	"(*sync.Once).Do":             {WritesDeep: []int{0}},
+	"(*sync.Map).Load":             {Alias: []int{0}},
+	"(*sync.Map).Range":            {},
+	"(*sync.Pool).Put":             {WritesDeep: []int{0}, Retains: [][2]int{{0, 1}}},
+	"(*sync.Pool).Get":             {WritesDeep: []int{0}, Alias: []int{0}},
+	"(*sync.Once).Do":              {WritesDeep: []int{0}},
 	// atomics write their target
 	"sync/atomic.StoreInt32": {Writes: []int{0}}, "sync/atomic.StoreInt64": {Writes: []int{0}},
 	"sync/atomic.StoreUint32": {Writes: []int{0}}, "sync/atomic.StoreUint64": {Writes: []int{0}},
 	"sync/atomic.AddInt32": {Writes: []int{0}}, "sync/atomic.AddInt64": {Writes: []int{0}},
 	"sync/atomic.AddUint32": {Writes: []int{0}}, "sync/atomic.AddUint64": {Writes: []int{0}},
-	"sync/atomic.StorePointer": {Writes: []int{0}, Retains: [][2]int{{0, 1}}},
+	"sync/atomic.StorePointer":   {Writes: []int{0}, Retains: [][2]int{{0, 1}}},
 	"(*sync/atomic.Value).Store": {WritesDeep: []int{0}, Retains: [][2]int{{0, 1}}},
 	"(*sync/atomic.Value).Load":  {Alias: []int{0}},
 	// http plumbing used by the join-server: effects stay inside the writer / request objects
@@ -143,11 +143,11 @@ var extTable = map[string]*ExtEntry{
 	"(net/http.Header).Get":                 {},
 	"(net/http.Header).Del":                 {WritesDeep: []int{0}},
 	// errors that wrap
-	"github.com/pkg/errors.Wrap":  {Holds: []int{0}},
-	"github.com/pkg/errors.Wrapf": {Holds: []int{0}},
-	"github.com/pkg/errors.Cause": {Alias: []int{0}},
+	"github.com/pkg/errors.Wrap":      {Holds: []int{0}},
+	"github.com/pkg/errors.Wrapf":     {Holds: []int{0}},
+	"github.com/pkg/errors.Cause":     {Alias: []int{0}},
 	"github.com/pkg/errors.WithStack": {Holds: []int{0}},
-	"errors.Unwrap": {Alias: []int{0}},
+	"errors.Unwrap":                   {Alias: []int{0}},
 	// time
 	"(*time.Time).UnmarshalText":   {Writes: []int{0}},
 	"(*time.Time).UnmarshalJSON":   {Writes: []int{0}},
@@ -157,41 +157,41 @@ var extTable = map[string]*ExtEntry{
 // purePackages: every function of these packages only reads its arguments and returns fresh (or
 // reference-free) results — unless listed in extTable.
 var purePackages = map[string]string{
-	"errors":              "constructors and predicates",
-	"fmt":                 "formatting reads its operands (Fprint* write to the given writer object only)",
-	"strings":             "strings are immutable",
-	"strconv":             "conversions",
-	"math":                "arithmetic",
-	"math/bits":           "arithmetic",
-	"time":                "value type arithmetic and parsing",
-	"unicode":             "predicates",
-	"unicode/utf8":        "predicates / decoding reads",
-	"encoding/hex":        "EncodeToString/DecodeString/Dump return fresh memory",
-	"encoding/base64":     "EncodeToString/DecodeString return fresh memory",
-	"encoding/binary":     "Uint16/32/64 read their argument",
-	"bytes":               "Equal/Compare/Contains/Index/HasPrefix read; Repeat/Join/ToUpper return fresh memory",
-	"crypto/aes":          "NewCipher copies the key schedule",
-	"crypto/cipher":       "constructors",
-	"crypto/rand":         "",
-	"crypto/subtle":       "ConstantTimeCompare reads",
-	"github.com/jacobsa/crypto/cmac": "New copies the key",
-	"log":                 "the standard logger is internally synchronised (trusted)",
-	"github.com/sirupsen/logrus": "loggers are internally synchronised (trusted)",
-	"sync":                "Mutex/RWMutex/WaitGroup operations: handled by the lock rule, not memory effects",
-	"context":             "contexts are immutable trees",
-	"reflect":             "",
-	"sort":                "Search* read",
-	"net/http":            "client/server plumbing: effects stay inside request/response objects",
-	"net/url":             "",
-	"io":                  "",
-	"io/ioutil":           "",
-	"os":                  "",
-	"net":                 "",
-	"crypto/tls":          "",
-	"crypto/x509":         "",
-	"encoding/pem":        "",
-	"database/sql/driver": "",
-	"github.com/pkg/errors": "",
+	"errors":                              "constructors and predicates",
+	"fmt":                                 "formatting reads its operands (Fprint* write to the given writer object only)",
+	"strings":                             "strings are immutable",
+	"strconv":                             "conversions",
+	"math":                                "arithmetic",
+	"math/bits":                           "arithmetic",
+	"time":                                "value type arithmetic and parsing",
+	"unicode":                             "predicates",
+	"unicode/utf8":                        "predicates / decoding reads",
+	"encoding/hex":                        "EncodeToString/DecodeString/Dump return fresh memory",
+	"encoding/base64":                     "EncodeToString/DecodeString return fresh memory",
+	"encoding/binary":                     "Uint16/32/64 read their argument",
+	"bytes":                               "Equal/Compare/Contains/Index/HasPrefix read; Repeat/Join/ToUpper return fresh memory",
+	"crypto/aes":                          "NewCipher copies the key schedule",
+	"crypto/cipher":                       "constructors",
+	"crypto/rand":                         "",
+	"crypto/subtle":                       "ConstantTimeCompare reads",
+	"github.com/jacobsa/crypto/cmac":      "New copies the key",
+	"log":                                 "the standard logger is internally synchronised (trusted)",
+	"github.com/sirupsen/logrus":          "loggers are internally synchronised (trusted)",
+	"sync":                                "Mutex/RWMutex/WaitGroup operations: handled by the lock rule, not memory effects",
+	"context":                             "contexts are immutable trees",
+	"reflect":                             "",
+	"sort":                                "Search* read",
+	"net/http":                            "client/server plumbing: effects stay inside request/response objects",
+	"net/url":                             "",
+	"io":                                  "",
+	"io/ioutil":                           "",
+	"os":                                  "",
+	"net":                                 "",
+	"crypto/tls":                          "",
+	"crypto/x509":                         "",
+	"encoding/pem":                        "",
+	"database/sql/driver":                 "",
+	"github.com/pkg/errors":               "",
 	"github.com/NickBall/go-aes-key-wrap": "Wrap/Unwrap return fresh memory",
 	"encoding/json":                       "Marshal/Valid read; Unmarshal is in the table",
 	"github.com/go-redis/redis/v8":        "client plumbing (backend async client)",
